@@ -129,7 +129,7 @@ CLAIMED = {
          "Exhaustive over identifiers, not over anything else; probabilistic primality in the model.",
          "runtime enumeration of all built parameter sets checked against mathematical obligations", "DESIGN.md §3 C18"),
 }
-READY = {"C01", "C02", "C03", "C04", "C07", "C08", "C09", "C10", "C11", "C12", "C13", "C14", "C15", "C16", "C17", "C18", "C19", "C20"}
+READY = {"C%02d" % i for i in range(1, 21)}
 NOT_YET = {}
 
 def main():
